@@ -809,6 +809,11 @@ MUTANTS = [
     dict(name='c10-rehash-unmarked', prop='C10', clause='D2', edits=[
         (CHM_H, "        b_new->node_list.store(reinterpret_cast<node_base*>(empty_rehashed_flag), std::memory_order_release); // mark rehashed\n        hashcode_type mask = (hashcode_type(1) << tbb::detail::log2(hash)) - 1; // get parent mask from the topmost bit\n        bucket_accessor b_old( this, hash & mask );",
          "        hashcode_type mask = (hashcode_type(1) << tbb::detail::log2(hash)) - 1; // get parent mask from the topmost bit\n        bucket_accessor b_old( this, hash & mask );\n        b_new->node_list.store(reinterpret_cast<node_base*>(empty_rehashed_flag), std::memory_order_release); // mark rehashed")]),
+    dict(name='c10-seed3-item-lock-waited-for-under-bucket-lock', prop='C10', clause='D3', edits=[(CHM_H, """            this->my_size--;
+        }
+        {
+            typename node::scoped_type item_locker( erase_node->mutex, /*write=*/true );""", """            this->my_size--;
+            typename node::scoped_type item_locker( erase_node->mutex, /*write=*/true );""")]),
     # ---------------------------------------------------------------- C11
     dict(name='c11-int-delta-regression', prop='C11', clause='D6', edits=[
         (CV_H, "        if (old_size < new_size) {\n            return internal_grow(old_size, new_size, args...);\n        }",
@@ -919,6 +924,12 @@ MUTANTS = [
          "    d1::task* cancel(d1::execution_data& ed) override {\n        BaseTaskType::template destruct_and_deallocate<apply_body_task_bypass>(ed);")]),
     dict(name='c14-task-for-inactive-graph', prop='C14', clause='D5', edits=[
         (FGN_H, "    inline graph_task* create_forward_task() {\n        if (!is_graph_active(my_graph_ref)) {\n            return nullptr;\n        }", "    inline graph_task* create_forward_task() {")]),
+    dict(name='c14-seed3-join-accept-tested-on-accumulated-task', prop='C14', clause='D4', edits=[(FGJ_H, """                                    graph_task *new_task =
+                                        my_successors.try_put_task(out __TBB_FLOW_GRAPH_METAINFO_ARG(metainfo));
+                                    last_task = combine_tasks(my_graph, last_task, new_task);
+                                    if(new_task) {""", """                                    last_task = combine_tasks(my_graph, last_task,
+                                        my_successors.try_put_task(out __TBB_FLOW_GRAPH_METAINFO_ARG(metainfo)));
+                                    if(last_task) {""")]),
     # ---------------------------------------------------------------- C15
     dict(name='c15-limiter-missing-dec', prop='C15', clause='D1', edits=[
         (FG_H, "        {\n            spin_mutex::scoped_lock lock(my_mutex);\n            --my_tries;\n            if (reserved) my_predecessors.try_release();",
